@@ -22,6 +22,7 @@ print("known_findings union:", len(out["findings"]))
 PY
 git add known_findings.json
 fi
+for f in $(git status --short | grep "^UU evidence/\|^AA evidence/" | cut -c4-); do git checkout --ours -- "$f"; git add "$f"; done
 if git status --short | grep -q "^UU\|^AA\|^DU\|^UD"; then echo "REMAINING CONFLICTS:"; git status --short | grep "^UU\|^AA\|^DU\|^UD"; exit 1; fi
 git commit -qm "merge $B" 2>/dev/null || true
 git log --oneline -1
